@@ -23,6 +23,9 @@ type CloneCase struct {
 	EmptyByDel bool `json:"empty_by_del"`
 	// PayloadOffset: value of the (deprecated, but exported) header field of that name before cloning
 	PayloadOffset int `json:"payload_offset,omitempty"`
+	// DupID (with FromWire): the wire image repeats an extension id with another value (nothing forbids it on the
+	// wire; SetExtension cannot produce it): both elements must be cloned as they are
+	DupID bool `json:"dup_id,omitempty"`
 	// Both: after cloning, the mutation is applied to BOTH sides (with different values):
 	// each side must then show its own change only
 	Both bool `json:"both"`
@@ -205,6 +208,15 @@ func checkC20(r *run, c *CloneCase) (CaseInfo, error) {
 		if err != nil {
 			return ci, failf("Marshal: %v", err)
 		}
+		if c.DupID && (m.ExtKind == "onebyte" || m.ExtKind == "twobyte") && len(m.Exts) >= 2 && len(m.Exts) <= 40 && m.Profile != 0 {
+			wc := WireCase{Model: *m}
+			wc.Model.Exts = append([]ExtElem{}, m.Exts...)
+			wc.Model.Exts[len(m.Exts)-1].ID = m.Exts[0].ID
+			if img, _, _, e := wc.image(); e == nil {
+				b = img
+				ci.class("wire-image-repeats-an-id")
+			}
+		}
 		orig = &rtp.Packet{}
 		if err := orig.Unmarshal(b); err != nil {
 			return ci, failf("Unmarshal: %v", err)
@@ -384,6 +396,7 @@ func genCloneCase(t *rapid.T) *CloneCase {
 		c.Model.Payload = genBytesN(t, "bigpayloadbytes", rapid.SampledFrom([]int{1499, 1500, 1501, 1600, 2048, 4096, 9000, 65536}).Draw(t, "bigpayloadlen"))
 	}
 	c.FromWire = genBool(t, "fromwire")
+	c.DupID = c.FromWire && rapid.IntRange(0, 3).Draw(t, "dupid") == 0
 	if genBool(t, "haspayloadoffset") {
 		c.PayloadOffset = rapid.SampledFrom([]int{12, 20, 1, -1, 65536}).Draw(t, "payloadoffset")
 	}
@@ -413,7 +426,7 @@ func genCloneCase(t *rapid.T) *CloneCase {
 	return c
 }
 
-const ruleC20 = "C01's well-formed packets (built through the API, or obtained from Unmarshal so that all slices alias one wire buffer; nil and empty payload/CSRC; the deprecated PayloadOffset header field set or not) x one mutation {flip payload byte, change CSRC entry, flip a byte of an extension value through the slice GetExtension returns, SetExtension new/replace, DelExtension, scalar field, padding size} applied to the original or to the clone, or a different new extension set on BOTH sides; optionally the extension list is first emptied again with DelExtension (length 0, spare capacity); oracle: clone observably equal (all fields, ids, values, Marshal bytes), untouched side unchanged after the mutation, as are a second clone of the original and a clone of the clone taken before it, and a clone of the untouched side taken after it; same for Header.Clone. Non-trivial = the mutation was applicable; distinct = FNV-64 of the JSON case"
+const ruleC20 = "C01's well-formed packets (built through the API, or obtained from Unmarshal so that all slices alias one wire buffer (a quarter of those from an image that repeats an extension id); nil and empty payload/CSRC; the deprecated PayloadOffset header field set or not) x one mutation {flip payload byte, change CSRC entry, flip a byte of an extension value through the slice GetExtension returns, SetExtension new/replace, DelExtension, scalar field, padding size} applied to the original or to the clone, or a different new extension set on BOTH sides; optionally the extension list is first emptied again with DelExtension (length 0, spare capacity); oracle: clone observably equal (all fields, ids, values, Marshal bytes), untouched side unchanged after the mutation, as are a second clone of the original and a clone of the clone taken before it, and a clone of the untouched side taken after it; same for Header.Clone. Non-trivial = the mutation was applicable; distinct = FNV-64 of the JSON case"
 
 func TestC20(t *testing.T) {
 	r := begin(t, "C20", "exploration", ruleC20)
